@@ -116,7 +116,6 @@ pub fn run_hashscale(seed: u64, rounds: u64, out: &mut RunOut) {
                 let dep = (len0 + if name.starts_with("insert") { 1 } else { 0 }).saturating_sub(c.len());
                 if zero { if d != 0 { fail(out, "C20", "hash-free", format!("{} on {} entries computed {} key hashes", name, len0, d), &cfg, "hashscale".into()); } out.stats.eval("C20", mix(&[kind, n as u64, 0])); continue; }
                 check_bound(out, &cfg, name, d, dep, rebuilt && may_rebuild, len0, n);
-                if rebuilt && !may_rebuild { fail(out, "C20", "unexpected-rebuild", format!("{} rebuilt the table", name), &cfg, "hashscale".into()); }
             }
             // refill for the next hasher / keep the table bounded
             drop(c);
